@@ -766,10 +766,7 @@ class Interp:
             return mk_str([getattr(p, name)() if isinstance(p, str) else mk_fd([(g, getattr(v, name)()) for g, v in p.cases])
                            for p in s.pieces])
         if name == "count" and len(args) == 1 and isinstance(args[0], str) and len(args[0]) == 1:
-            tot = 0
-            for c in self.chars(s):
-                tot = self.binop(ast.Add(), tot, self.bool_to_int(self.binop(ast.Eq(), c, args[0])))
-            return tot
+            return self.count_true([self.truth(self.binop(ast.Eq(), c, args[0])) for c in self.chars(s)])
         if name in ("isspace", "isdigit", "isalpha", "isupper", "islower") and not args:
             cs = self.chars(s)
             if not cs:
@@ -855,6 +852,18 @@ class Interp:
 
     # ------------------------------------------------------------------ operations
     def fd_binop(self, t, a, b):
+        if t in (ast.Eq, ast.NotEq) and isinstance(a, FD) and isinstance(b, FD) and len(a.cases) * len(b.cases) > 64:
+            # equality of two finite-domain values: some value is taken by both (linear in the number of values)
+            gb = {}
+            for g, v in b.cases:
+                gb.setdefault(_key(v), []).append(g)
+            parts = []
+            for g, v in a.cases:
+                for g2 in gb.get(_key(v), []):
+                    parts.append(z3.And(g, g2))
+            eq = z3.Or(*parts) if len(parts) > 1 else (parts[0] if parts else FALSE)
+            r = self.from_truth(eq)
+            return self.not_(r) if t is ast.NotEq else r
         ca, cb = fd_cases(a), fd_cases(b)
         if len(ca) * len(cb) > 256:
             a = self.prune(a); b = self.prune(b)
@@ -865,6 +874,9 @@ class Interp:
             # sum of independent quantities: keep the addends separate (linear sum of ite-chains)
             va, vb = a.vars(), b.vars()
             if not (va <= vb or vb <= va):
+                return self.sym_binop(t, a, b)
+            if any(isinstance(v, float) and not float(v).is_integer() for _, v in ca) or any(isinstance(v, float) and not float(v).is_integer() for _, v in cb):
+                # accumulation of non-integral floats: keep a linear sum instead of tabulating all combinations
                 return self.sym_binop(t, a, b)
         out = []
         op = PYOPS[t]
@@ -911,6 +923,8 @@ class Interp:
             o = b if isinstance(a, str) else a
             if isinstance(o, FD) and all(isinstance(v, str) for _, v in o.cases):
                 return self.str_binop(t, a, b)
+        if t is ast.Add and isinstance(a, FD) and isinstance(b, FD) and all(isinstance(v, str) for _, v in a.cases) and all(isinstance(v, str) for _, v in b.cases):
+            return self.str_binop(t, a, b)
         if isinstance(a, (GList, SymDict)) or isinstance(b, (GList, SymDict)):
             return self.glist_binop(t, a, b)
         if not is_sym(a) and not is_sym(b):
@@ -1248,6 +1262,20 @@ class Interp:
             return tuple(self.merge(g, x, y) for x, y in zip(a, b))
         if isinstance(a, dict) and isinstance(b, dict) and list(a.keys()) == list(b.keys()):
             return {k: self.merge(g, a[k], b[k]) for k in a}
+        if isinstance(a, Sym) and isinstance(b, (Sym, int, float)) and a.kind in ("real", "int") and z3.is_app(a.z) and a.z.decl().kind() == z3.Z3_OP_ADD:
+            # accumulation pattern `if g: acc = term + acc`: keep the sum flat: acc + If(g, term, 0)
+            b2 = to_sym(b)
+            if b2.kind in ("real", "int"):
+                ch = a.z.children()
+                bz = as_real(b2) if a.kind == "real" else (as_int(b2) if b2.kind != "real" else None)
+                if bz is not None:
+                    for i, c in enumerate(ch):
+                        if c.eq(bz):
+                            rest = ch[:i] + ch[i + 1:]
+                            if rest:
+                                term = rest[0] if len(rest) == 1 else z3.Sum(rest)
+                                zero = z3.RealVal(0) if a.kind == "real" else z3.IntVal(0)
+                                return Sym(bz + z3.If(g, term, zero), a.kind)
         if isinstance(a, Sym) or isinstance(b, Sym):
             a2, b2 = to_sym(a), to_sym(b)
             if a2.kind == b2.kind and a2.kind in ("bv", "fp"):
@@ -2004,6 +2032,10 @@ class Interp:
             if name == "__class__":
                 return {"int": int, "real": float, "bool": bool}[o.kind]
             return SymMethod(o, name)
+        if isinstance(o, SetList):
+            if name == "__class__":
+                return set
+            return SymMethod(o, name)
         if isinstance(o, (SymArray, GList, SymDict)):
             if name == "__class__":
                 import numpy as np
@@ -2284,10 +2316,33 @@ class Interp:
                     return None
             if isinstance(recv, set) and fn.__name__ in ("add", "discard", "remove", "update", "clear"):
                 if self.deep_symbolic(args):
+                    if fn.__name__ == "add" and isinstance(e.func, ast.Attribute) and isinstance(e.func.value, ast.Name):
+                        # a python set receiving a symbolic element becomes a list used as a set (membership / len only)
+                        sl = SetList(list(recv))
+                        self.assign(e.func.value, sl, fr)
+                        return self.setlist_add(sl, args[0])
                     raise Unsupported("set.%s with symbolic element" % fn.__name__)
                 if self.undo is not None:
                     raise MergeAbort("set mutation inside merge")
+            if isinstance(recv, SetList) and fn.__name__ == "append":
+                pass
+        if isinstance(fn, SymMethod) and isinstance(fn.recv, SetList):
+            if fn.name == "add" and len(args) == 1:
+                return self.setlist_add(fn.recv, args[0])
+            raise Unsupported("set method %s on symbolic set" % fn.name)
         return self.call(fn, args, kwargs)
+
+    def setlist_add(self, sl, x):
+        """set.add(x): x becomes present unless an equal element is already present"""
+        present = self.contains(sl, x)
+        t = self.truth(present)
+        if t is True:
+            return None
+        if t is False:
+            self.list_append(sl, x)
+        else:
+            self.list_append(sl, GItem(z3.Not(t), x))
+        return None
 
     def comprehension(self, e, fr, kind):
         # comprehension scope: loop variables live in a child frame
